@@ -172,6 +172,16 @@ class Check(object):
             if ob.kind == 'prop' and ob.replay is not None:
                 try:
                     rep = ob.replay(ob, self.find_point(ob.search) if ob.search else {})
+                    if not (rep and rep.get('reproduced')) and ob.search:
+                        # the sampling ranges sit around the (positive) defaults: parameters whose sign no assumption fixes are also tried
+                        # with the mirrored range -- all of them at once, then one at a time
+                        for variant in self.sign_variants(ob.search):
+                            pt = self.find_point(variant, tries=200, steps=600)
+                            if not pt:
+                                continue
+                            rep = ob.replay(ob, pt)
+                            if rep and rep.get('reproduced'):
+                                break
                 except Exception as e:
                     self.notes.append('refutation attempt for undecided %s failed: %r' % (ob.name, e))
             if rep and rep.get('reproduced'):
@@ -185,6 +195,31 @@ class Check(object):
             self.infra.append('obligation %s: solver error: %s' % (ob.name, ob.result['output'][:300]))
         elif v == 'sat':
             self.handle_sat(ob)
+
+    def sign_variants(self, search, cap=8):
+        from fractions import Fraction
+        fixed = set()
+        for c in search['conds']:
+            d = c
+            while d.op == 'not':
+                d = d.a[0]
+            if d.op in ('lt', 'le', 'gt', 'ge') and len(d.a) == 2:
+                for a_, b_ in ((d.a[0], d.a[1]), (d.a[1], d.a[0])):
+                    if a_.op == 'sym' and tm.isc(b_):
+                        fixed.add(a_.p)
+        ranges = dict(search.get('ranges') or {})
+        free = [n for n in search['names'] if n not in fixed and ranges.get(n, (Fraction(1, 8), Fraction(2)))[0] > 0]
+        if not free:
+            return
+        mirror = lambda n: (-ranges.get(n, (Fraction(1, 8), Fraction(2)))[1], -ranges.get(n, (Fraction(1, 8), Fraction(2)))[0])
+        groups = [free] + [[n] for n in free[:cap]]
+        for g in groups:
+            r2 = dict(ranges)
+            for n in g:
+                r2[n] = mirror(n)
+            v = dict(search)
+            v['ranges'] = r2
+            yield v
 
     def find_point(self, search, tries=400, steps=1500):
         """a point (name -> Fraction) at which every condition of the obligation (assumptions, path and case conditions) holds numerically:
